@@ -154,6 +154,19 @@ PROPS = {
                       "C11_passthrough, C11_mask (exactly [0xF70,0x1070) is zeroed for every read window), C11_enc (keyed view = C10 reference plaintext; 3k3y = "
                       "decrypt then mask), over the model of FS.OpenFile / tryGetRedumpKey / ReadKeyFile / Test3k3yImage / ISO3k3y.",
     },
+    "C12": {
+        "jobs": [{"cmd": "conc", "quick": 10, "thorough": 300, "race": True, "timeout": 6000, "project": sess_project()}],
+        "rule": "2..8 (thorough: 2..64) concurrent clients against one real server built with -race, GOMAXPROCS 1..16: each client issues 10..50 requests "
+                "over the shared read-only subtree (opens, reads of up to 70 KB through the pooled buffers, listings, dir-size) and over its own private "
+                "writable subtree (uploads, mkdir/rmdir, delete); each client's response stream is compared with the model's prediction for that client "
+                "alone; any race-detector report is a violation; every client's session is one case (all non-trivial)",
+        "assumptions": ["request handling is the atomic step of a schedule in the model; the Go memory model is not modelled"],
+        "partial": ["the theorem covers schedules in which nothing writes; isolation of clients that write to private subtrees and freedom from data races are "
+                    "decided by the -race differential only"],
+        "level_text": "Theorems C12_isolation (for every interleaving of any number of connections in which nothing writes, each connection's responses equal its "
+                      "solo run), C12_state_private (a step never touches another connection's state), C12_pool (the pooled transfer buffer never leaks a "
+                      "previous user's bytes, for every chunking), over the session model lifted to schedules.",
+    },
     "C13": {
         "jobs": [sess_job(140, 2500, keep_ops=[], held=True, leak=True)],
         "rule": SESS_RULE, "assumptions": SESS_ASSUME,
